@@ -42,19 +42,19 @@ PROPS["C12"] = dict(
 
 
 PROPS["C01"] = dict(
-    slices=["network", "net_enum", "tour_pos", "tour_mod", "path", "tour_ctor", "sched_guard", "json_writer"],
+    slices=["network", "net_enum", "tour_pos", "tour_mod", "path", "tour_ctor", "sched_guard", "json_writer", "spawn_vehicle"],
     witness_family="tour",
-    level_text="Verus proves on the real code: can_reach equals the documented timing rule; Tour::new_allow_invalid returns Ok exactly for node sequences that start at a start depot, end at an end depot, have only activities in between, at least one of them, and are pairwise connectable; replace_start_depot, replace_end_depot, remove and insert_path (given a connected path, which Path::new is proved to establish) preserve that invariant (Tour::wf); successors/predecessors enumerate exactly the connectable nodes. The schedule-level type guard check_receiver_type_compatibility returns true only if every moved node is compatible with the receiver's vehicle type. the JSON writer (vehicle_to_json) emits exactly the nodes of the tour it is given, in order, with the nodes' own data. Tour::new_dummy and the other type guards (spawn / add_path) are assumptions, not proved",
+    level_text="Verus proves on the real code: can_reach equals the documented timing rule; Tour::new_allow_invalid returns Ok exactly for node sequences that start at a start depot, end at an end depot, have only activities in between, at least one of them, and are pairwise connectable; replace_start_depot, replace_end_depot, remove and insert_path (given a connected path, which Path::new is proved to establish) preserve that invariant (Tour::wf); successors/predecessors enumerate exactly the connectable nodes. The schedule-level type guard check_receiver_type_compatibility returns true only if every moved node is compatible with the receiver's vehicle type. the JSON writer (vehicle_to_json) emits exactly the nodes of the tour it is given, in order, with the nodes' own data. spawn_vehicle_for_path refuses a path with a node that is not compatible with the vehicle type and gives the new vehicle exactly the given nodes (plus depots at the ends). The type guard of add_path_to_vehicle_tour is an assumption, not proved",
     level_note="trusted: vstd, key-model axioms, derived Eq/Ord, the SeqIter shim, to_vec/Option::or/Result::unwrap_or specs, A-fmt; stub: Tour::position_of; A-path (paths handed to insert_path are connected) and A-type (compatible_with_vehicle_type guards in schedule/modifications.rs) are caller-side assumptions; A-text / A-serde for the writer",
     scope="tour-level feasibility invariant under the constructor and all four modifiers of solution/src/tour",
     assumptions=A_COMMON + A_ITER + [
         "A-path: every path handed to Tour::insert_path of a real vehicle is connected (holds for Path::new and paths cut from real tours; dummy-tour paths rely on the triangle inequality, D9)",
-        "A-type: a vehicle only serves segments of its own type rests on the compatible_with_vehicle_type guards at schedule level (not under contract)",
+        "A-type: of the compatible_with_vehicle_type guards at schedule level, check_receiver_type_compatibility (fit / override_reassign) and the guard of spawn_vehicle_for_path are proved; add_path_to_vehicle_tour and spawn_vehicle_to_replace_dummy_tour are not under contract",
         "A-text / A-serde: text rendering of values and serde_json::to_value are opaque (see C03)",
     ],
 )
 PROPS["C10"] = dict(
-    slices=["network", "tour_pos", "tour_mod", "path", "sched_guard", "admission", "train_formation_update", "update_tours"],
+    slices=["network", "tour_pos", "tour_mod", "path", "sched_guard", "admission", "train_formation_update", "update_tours", "remove_segment", "spawn_vehicle"],
     witness_family="tour",
     level_text="clause 1 (every vehicle tour is a chronological path of connectable nodes from a start depot to an end depot with activities in between): same obligations as C01 on the Tour constructor and modifiers; cycle-membership clause: update_transitions_and_violation_fast keeps every type's rotation cycles well formed w.r.t. the new tours with exactly the new real vehicles of the type as members (under the stated caller-side precondition: no vehicle listed twice); formation, track and depot limits: the admission checks vehicle_replacement_in_train_formation and can_depot_spawn_vehicle_custom_usage are exact and update_train_formation applies them to exactly the moved nodes (same obligations as C02); sorted listings: update_tours keeps the vehicle and dummy listings sorted, duplicate-free and matching the maps; formation/tour agreement of whole schedules is NOT decided",
     level_note="same trusted base and caller-side assumptions as C01",
@@ -85,7 +85,7 @@ PROPS["C03"] = dict(
 )
 PROPS["C09"] = dict(
     kani=True,
-    slices=["tour_mod", "formation", "depot_usage", "sched_guard", "train_formation_update", "update_tours"],
+    slices=["tour_mod", "formation", "depot_usage", "sched_guard", "train_formation_update", "update_tours", "remove_segment", "spawn_vehicle"],
     witness_family="tour",
     level_text="tour level: Verus proves that compute_*_of_nodes (and hence new_computing / every freshly built tour) equal the from-scratch meaning of the five cached figures written from the property text, and that replace_start_depot, replace_end_depot, remove and insert_path keep all five caches exact (delta formulas = recomputation), including tours through the infinitely distant overflow depot; schedule level: the depot-usage table stays exact for the updated vehicle and untouched for all others under update_depot_usage (from-scratch meaning: spawned/despawned sets per depot and type), depot_balance / total_depot_balance_violation are the sizes' differences resp. their absolute sum, update_tour_and_costs applies exactly the cost delta, update_tours (the common bookkeeping of fit/override_reassign) applies exactly the cost delta of the replaced / removed real tours and keeps the depot-usage table exact for provider and receiver and untouched for everyone else, update_train_formation changes the unserved-passengers pair by exactly - Σ unserved(old formation) + Σ unserved(new formation) over the moved service trips, update_transitions_and_violation_fast and set_next_day_transitions keep the schedule's maintenance violation equal to the sum of the per-type totals; the other schedule aggregates (costs across whole modifications, unserved passengers) are NOT decided",
     level_note="trusted: as C01 plus A-iter sums (Sum for Distance/Duration folds with +; integer sums do not wrap); Network::bounded magnitudes are a stated precondition",
@@ -93,9 +93,9 @@ PROPS["C09"] = dict(
     assumptions=A_COMMON + A_ITER + ["Schedule.{costs, unserved_passengers, maintenance_violation, depot_usage} delta updates are not under contract"],
 )
 PROPS["C13"] = dict(
-    slices=["formation", "train_formation_update", "update_tours"],
+    slices=["formation", "train_formation_update", "update_tours", "remove_segment", "spawn_vehicle"],
     witness_family=None,
-    level_text="last sentence and the formation frame: Verus proves that TrainFormation::replace puts the new vehicle at the replaced one's position, add_at_tail appends, remove keeps the order, and replace/remove return Err iff the vehicle is absent; Schedule::update_train_formation (the formation bookkeeping of every modification) gives every moved non-depot node exactly the replacement that vehicle_replacement_in_train_formation specifies for its old formation, leaves the formations of all other nodes untouched, and refuses iff one replacement is refused; Schedule::update_tours replaces exactly the provider's and the receiver's tour (a provider without new tour disappears from tours / vehicles / its sorted listing, a dummy provider from the dummy tours and listing), leaves every other vehicle, tour, dummy tour and listing untouched and passes the formation update through; which nodes fit_reassign / override_reassign move, and remove_segment / spawn / delete as whole modifications, are NOT decided",
+    level_text="last sentence and the formation frame: Verus proves that TrainFormation::replace puts the new vehicle at the replaced one's position, add_at_tail appends, remove keeps the order, and replace/remove return Err iff the vehicle is absent; Schedule::update_train_formation (the formation bookkeeping of every modification) gives every moved non-depot node exactly the replacement that vehicle_replacement_in_train_formation specifies for its old formation, leaves the formations of all other nodes untouched, and refuses iff one replacement is refused; Schedule::update_tours replaces exactly the provider's and the receiver's tour (a provider without new tour disappears from tours / vehicles / its sorted listing, a dummy provider from the dummy tours and listing), leaves every other vehicle, tour, dummy tour and listing untouched and passes the formation update through; Schedule::remove_segment as a whole modification: the provider loses exactly the segment (or the whole-tour case delegates to replace_vehicle_by_dummy), the removed service trips are handed back in exactly one new dummy tour with a fresh id (none if there is no service trip), every other tour, the vehicle set, the formations of all other nodes stay untouched, the aggregates follow (costs, unserved passengers, depot usage, transitions); Tour::new_dummy keeps exactly the service trips in order; Schedule::spawn_vehicle_for_path adds exactly one vehicle with a fresh id whose tour is the given path in order with depots at the ends (defect D12), inserts the id at its sorted position, changes no other tour, vehicle, dummy or listing, and the aggregates follow; which nodes fit_reassign / override_reassign move, and delete_dummy / replace_vehicle_by_dummy / add_path_to_vehicle_tour as whole modifications are NOT decided",
     level_note="trusted: vstd Vec specs (push, swap_remove, remove, clone), SeqIter::position, A-clone (derived Clone of Vehicle returns an equal value)",
     scope="solution/src/train_formation.rs",
     assumptions=["A-iter: SeqIter::position = first index satisfying the predicate", "A-clone: derived Clone returns an equal value"],
@@ -134,7 +134,7 @@ PROPS["C16"] = dict(
 )
 
 PROPS["C04"] = dict(
-    slices=["objective", "depot_usage", "sched_guard", "admission", "tour_mod", "reassign"],
+    slices=["objective", "depot_usage", "sched_guard", "admission", "tour_mod", "reassign", "train_formation_update", "update_tours", "remove_segment"],
     witness_family="tour",
     level_text="per-function links of the chain 'reported component = independent evaluation': Verus proves on the real code that each of the four indicators of solver/src/objective.rs reports exactly the schedule's aggregate of its name (unserved passengers: the pair added; maintenance violation; number of real vehicles; costs) and that objective::build arranges them as the four hierarchy levels in the order unserved passengers, maintenance violation, vehicle count, costs, each with coefficient one; that the aggregates equal their recomputation is proved where C09 proves it: the five per-tour caches incl. costs under every tour operation, compute_unserved_passengers_at_node (per-segment shortfall), the schedule's maintenance violation = sum over the installed transitions under update_transitions_and_violation_fast and set_next_day_transitions (defect D10 was exactly a C04 violation), the schedule's costs follow the tours' costs under reassign_end_depots_consistent_with_transitions, transition totals = sum of positive parts of the cycle counters (C15). The composition over a whole history of schedule modifications (Schedule.costs and unserved_passengers across fit/override_reassign, spawn, delete) is NOT decided",
     level_note="trusted: A-dyn (hand-declared trait Indicator with evaluate only; a boxed indicator evaluates like its impl), A-im, `as i64` casts stated as cast values plus exactness when the number fits; A-lib: rapid_solve's Objective::evaluate (sum per level, lexicographic comparison) and ObjectiveValue printing are not under contract; base of C09/C15",
@@ -147,9 +147,9 @@ PROPS["C04"] = dict(
 )
 
 PROPS["C07"] = dict(
-    slices=["limits", "mcf_bounds", "admission", "objective"],
+    slices=["limits", "mcf_bounds", "admission", "objective", "train_formation_update", "remove_segment"],
     witness_family="net",
-    level_text="the per-function links: Verus proves on the real code that number_of_vehicles_required_to_serve is the exact ceiling (enough vehicles for passengers and seated passengers, and not one more), that the flow stage puts the lower bound min(required, combined formation limit) and the upper bound = combined limit on every trip edge (R8 fragments of solve_for_vehicle_type), that compute_unserved_passengers_at_node is max(0, demand - capacity of the formation) per component, and -- as a lemma over these contracts -- that a formation of at least `required` vehicles of the segment's type leaves nobody behind while a formation capped at k vehicles leaves exactly demand - k * capacity; unserved passengers is the first objective level (C04.build). That the circulation returned by the network simplex respects the bounds, that flow units are decoded into formations of that size, and that the local search never accepts a worse first level are assumptions (A-lib), so the equality with the instance's lower bound for every returned schedule is NOT decided end to end",
+    level_text="the per-function links: Verus proves on the real code that number_of_vehicles_required_to_serve is the exact ceiling (enough vehicles for passengers and seated passengers, and not one more), that the flow stage puts the lower bound min(required, combined formation limit) and the upper bound = combined limit on every trip edge (R8 fragments of solve_for_vehicle_type), that compute_unserved_passengers_at_node is max(0, demand - capacity of the formation) per component, and -- as a lemma over these contracts -- that a formation of at least `required` vehicles of the segment's type leaves nobody behind while a formation capped at k vehicles leaves exactly demand - k * capacity; unserved passengers is the first objective level (C04.build); the schedule's unserved-passengers pair follows the formations exactly under update_train_formation and remove_segment (the bookkeeping later stages rely on). That the circulation returned by the network simplex respects the bounds, that flow units are decoded into formations of that size, and that the local search never accepts a worse first level are assumptions (A-lib), so the equality with the instance's lower bound for every returned schedule is NOT decided end to end",
     level_note="trusted: as C02; A-lib: rs_graph::mcf::network_simplex returns a feasible circulation, rapid_solve's acceptance rule is lexicographic in the level order; the decoding of the flow into tours (solve_for_vehicle_type after the solver call) is pinned by a skeleton hash, not verified",
     scope="model/src/network.rs::number_of_vehicles_required_to_serve, the trip-edge bounds of solver/src/min_cost_flow_solver.rs, solution/src/schedule.rs::compute_unserved_passengers_at_node, solver/src/objective.rs::build",
     assumptions=A_COMMON + [
@@ -162,7 +162,7 @@ PROPS["C07"] = dict(
 
 ALL_SLICES = ["time", "network", "net_enum", "limits", "json_out", "tour_pos", "tour_mod", "path", "tour_ctor", "formation", "transition",
               "tsp_ranges", "admission", "reassign", "pipeline", "mcf_bounds", "sched_guard", "depot_usage", "network_new", "json_writer",
-              "objective", "train_formation_update", "update_tours"]
+              "objective", "train_formation_update", "update_tours", "remove_segment", "spawn_vehicle"]
 PROPS["C06"] = dict(
     slices=["time", "network_new", "tsp_ranges", "mcf_bounds", "limits", "objective", "pipeline", "json_out"],
     thorough_slices=ALL_SLICES,
